@@ -101,6 +101,10 @@ class _BlackbirdPrinter(StrPrinter):
             return "-({})".format(res[1:])
         return res
 
+    def _print_ImaginaryUnit(self, expr):
+        # the imaginary unit of a complex coefficient is written as a Blackbird complex literal
+        return "1j"
+
 
 def _expr_to_blackbird(expr):
     """Converts a SymPy expression to a Blackbird expression, with the
